@@ -83,10 +83,10 @@ theorem loadAux_size (rej : Nat → Bool) (bs cur : Bytes) (ts : List Key) (h : 
           simp only [Option.map_some, Option.some.injEq] at h
           subst h
           have := ih [] ts' hr
-          simp only [namesSize, List.map_cons, List.sum_cons, List.length_cons, List.length_nil] at this ⊢
+          simp only [namesSize, List.map_cons, List.sum_cons, List.length_cons, List.length_nil, List.length_reverse] at this ⊢
           omega
-    · have := ih (cur ++ [c]) ts h
-      simp only [List.length_append, List.length_cons, List.length_nil] at this ⊢
+    · have := ih (c :: cur) ts h
+      simp only [List.length_cons] at this ⊢
       omega
 
 /-! ### bounds -/
